@@ -148,3 +148,51 @@ Proof.
   - intros o [E|[E|[]]]; subst o; cbn; lia.
   - lia.
 Qed.
+
+(* ---------------------------------------------------------------------------------------------
+   Tie to the code by translation + proof: the functions below are GENERATED on every run from /repo's
+   current Go source (translator/gen_gofuncs.go -> Gen/GoWindows.v); the theorems say that the hand-written model the
+   property theorems above are about computes what the generated function computes, for all arguments. *)
+From Coq Require Import String.
+From JK Require Import Base.Dec Base.GoSem Gen.GoWindows Proofs.GoTieWindows.
+
+(* getRoundedWindow / ProvenLastBlock / ProvenThisBlock / IsYoung of x/storage/types/file.go are the window
+   predicates of Model/Windows.v (heights, starts and intervals of magnitude at most 2^60) *)
+Theorem C02_code_tie_window_predicates :
+  forall start pi h last, small h -> small start -> small pi ->
+    gen_getRoundedWindow h start pi = of_res (Windows.rounded_window h start pi) /\
+    gen_ProvenLastBlock start pi h last = of_res (Windows.proven_last_block start pi h last) /\
+    gen_ProvenThisBlock start pi h last = of_res (Windows.proven_this_block start pi h last) /\
+    gen_IsYoung start pi h = GVal (Windows.is_young start pi h).
+Proof.
+  intros start pi h last Hh Hs Hp.
+  rewrite windows_rounded, windows_proven_last, windows_proven_this, windows_young.
+  exact (conj (gen_getRoundedWindow_spec h start pi Hh Hs)
+        (conj (gen_ProvenLastBlock_spec start pi h last Hh Hs Hp)
+        (conj (gen_ProvenThisBlock_spec start pi h last Hh Hs) (gen_IsYoung_spec start pi h Hs Hp)))).
+Qed.
+Print Assumptions C02_code_tie_window_predicates.
+
+(* keeper.manageProof takes the decision of Model/Windows.v's manage_proof (a missing record reads as the zero
+   record) and performs exactly: credit the file size / remove the prover / remove and burn *)
+Theorem C02_code_tie_manageProof :
+  forall start pi h size found last, small h -> small start -> small pi ->
+    gen_manageProof start pi h size found (if found then last else 0)
+    = gmap (fun d => verdict_events size (of_decision d)) (of_res (Windows.manage_proof start pi h found last)).
+Proof.
+  intros start pi h size found last Hh Hs Hp.
+  rewrite (gen_manageProof_spec start pi h size found _ Hh Hs Hp), <- windows_manage_proof.
+  destruct (Windows.manage_proof start pi h found last); reflexivity.
+Qed.
+Print Assumptions C02_code_tie_manageProof.
+
+(* ResetChunkWithProof stores the challenge Model/Windows.v's reset_chunk computes (a chunk index below the
+   number of pieces), and RunRewardBlock runs ManageRewards exactly at the heights of reward_runs *)
+Theorem C02_code_tie_challenge_and_trigger :
+  forall size chunk draw cw h, int64_min < size <= int64_max ->
+    gen_ResetChunkWithProof size chunk draw
+    = gmap (fun c => ([Ev "set-challenge"%string [c]], true)) (of_res (Windows.reset_chunk size chunk (fun _ => draw))) /\
+    gen_RunRewardBlock cw h
+    = gmap (fun b : bool => if b then [Ev "manage-rewards"%string []] else []) (of_res (Windows.reward_runs cw h)).
+Proof. intros size chunk draw cw h Hs. exact (conj (windows_reset_chunk size chunk draw Hs) (windows_reward_runs cw h)). Qed.
+Print Assumptions C02_code_tie_challenge_and_trigger.
